@@ -1,6 +1,8 @@
 package vquery
 
 import (
+	"fmt"
+	"math"
 	"math/big"
 	"sort"
 	"strconv"
@@ -184,33 +186,100 @@ func (q *query) evalPred(p pred, rows [][]value) int {
 const (
 	clsText = iota
 	clsRat
-	clsF64
-	clsF32
+	clsF64 // double column: relative tolerance 1e-12
+	clsF32 // float column: relative tolerance 1e-6
+	clsSum // SUM accumulated in a double by the engine: relative 1e-6 + absolute 1e-6
 )
 
-func canon(cls int, text string) string {
-	if text == sqlrig.Null {
-		return text
-	}
-	switch cls {
-	case clsRat:
-		if r, ok := new(big.Rat).SetString(text); ok {
-			return r.RatString()
-		}
-	case clsF64, clsF32:
-		if f, err := strconv.ParseFloat(text, 64); err == nil {
-			if f == 0 {
-				return "0"
-			}
-			digits := 8
-			if cls == clsF32 {
-				digits = 4
-			}
-			return strconv.FormatFloat(f, 'e', digits, 64)
-		}
-	}
-	return text
+// crow is one canonical result row: the exactly compared cells, and the approximately compared numeric cells.
+type crow struct {
+	key  string
+	nums []float64
+	tol  []int // class of each num
 }
+
+func (r crow) String() string {
+	if len(r.nums) == 0 {
+		return r.key
+	}
+	return fmt.Sprintf("%s ~%v", r.key, r.nums)
+}
+
+func approxEq(cls int, a, b float64) bool {
+	if a == b || (math.IsNaN(a) && math.IsNaN(b)) {
+		return true
+	}
+	if math.IsInf(a, 0) || math.IsInf(b, 0) {
+		return false
+	}
+	d, m := math.Abs(a-b), math.Max(math.Abs(a), math.Abs(b))
+	switch cls {
+	case clsF32:
+		return d <= 1e-6*m
+	case clsSum:
+		return d <= 1e-6*m+1e-6
+	}
+	return d <= 1e-12*m
+}
+
+func crowLess(a, b crow) bool {
+	if a.key != b.key {
+		return a.key < b.key
+	}
+	for i := range a.nums {
+		if i >= len(b.nums) {
+			return false
+		}
+		if a.nums[i] != b.nums[i] {
+			return a.nums[i] < b.nums[i]
+		}
+	}
+	return false
+}
+
+func crowEq(a, b crow) bool {
+	if a.key != b.key || len(a.nums) != len(b.nums) {
+		return false
+	}
+	for i := range a.nums {
+		if !approxEq(a.tol[i], a.nums[i], b.nums[i]) {
+			return false
+		}
+	}
+	return true
+}
+
+// mkRow builds a canonical row from the cells' texts.
+func mkRow(cls []int, cells []string) crow {
+	var r crow
+	parts := make([]string, len(cells))
+	for j, c := range cells {
+		k := clsText
+		if j < len(cls) {
+			k = cls[j]
+		}
+		parts[j] = c
+		if c == sqlrig.Null {
+			continue
+		}
+		switch k {
+		case clsRat:
+			if x, ok := new(big.Rat).SetString(c); ok {
+				parts[j] = x.RatString()
+			}
+		case clsF64, clsF32, clsSum:
+			if f, err := strconv.ParseFloat(c, 64); err == nil {
+				parts[j] = "~"
+				r.nums = append(r.nums, f)
+				r.tol = append(r.tol, k)
+			}
+		}
+	}
+	r.key = strings.Join(parts, "\x1f")
+	return r
+}
+
+func sortRows(rows []crow) { sort.SliceStable(rows, func(i, j int) bool { return crowLess(rows[i], rows[j]) }) }
 
 func colClass(c *colSpec) int {
 	switch c.Kind {
@@ -236,11 +305,11 @@ func (q *query) classes() []int {
 			col := q.schema.Tables[q.Tables[s.A]].Cols[s.C]
 			switch col.Kind {
 			case kDec:
-				out[i] = clsRat
+				out[i] = clsSum // go-mysql-server accumulates decimal sums in a double, too
 			case kFloat:
-				out[i] = colClass(col)
+				out[i] = clsSum
 			default:
-				out[i] = clsF64 // go-mysql-server accumulates integer sums in a double
+				out[i] = clsSum // go-mysql-server accumulates integer sums in a double
 			}
 		default:
 			out[i] = colClass(q.schema.Tables[q.Tables[s.A]].Cols[s.C])
@@ -250,22 +319,14 @@ func (q *query) classes() []int {
 }
 
 // canonRows renders a wire result canonically: one string per row; sorted unless the query is ordered.
-func (q *query) canonRows(rs *sqlrig.Rows) []string {
+func (q *query) canonRows(rs *sqlrig.Rows) []crow {
 	cls := q.classes()
-	out := make([]string, len(rs.Data))
+	out := make([]crow, len(rs.Data))
 	for i, row := range rs.Data {
-		cells := make([]string, len(row))
-		for j, c := range row {
-			k := clsText
-			if j < len(cls) {
-				k = cls[j]
-			}
-			cells[j] = canon(k, c)
-		}
-		out[i] = strings.Join(cells, "\x1f")
+		out[i] = mkRow(cls, row)
 	}
 	if !q.Ordered {
-		sort.Strings(out)
+		sortRows(out)
 	}
 	return out
 }
@@ -353,7 +414,7 @@ func cell(rows [][]value, a, c int) value {
 	return rows[a][c]
 }
 
-func (q *query) aggregate(group [][][]value) []string {
+func (q *query) aggregate(group [][][]value) crow {
 	cls := q.classes()
 	cells := make([]string, len(q.Select))
 	for i, s := range q.Select {
@@ -363,7 +424,7 @@ func (q *query) aggregate(group [][][]value) []string {
 		}
 		switch s.Agg {
 		case "":
-			cells[i] = canon(cls[i], valueText(col, cell(group[0], s.A, s.C)))
+			cells[i] = valueText(col, cell(group[0], s.A, s.C))
 		case "count*":
 			cells[i] = strconv.Itoa(len(group))
 		case "count":
@@ -395,7 +456,7 @@ func (q *query) aggregate(group [][][]value) []string {
 			if best == nil {
 				cells[i] = sqlrig.Null
 			} else {
-				cells[i] = canon(cls[i], valueText(col, *best))
+				cells[i] = valueText(col, *best)
 			}
 		case "sum":
 			any := false
@@ -417,22 +478,18 @@ func (q *query) aggregate(group [][][]value) []string {
 			case !any:
 				cells[i] = sqlrig.Null
 			case col.Kind == kFloat:
-				cells[i] = canon(cls[i], strconv.FormatFloat(sumF, 'g', -1, 64))
-			case col.Kind == kDec:
-				cells[i] = sumR.RatString()
+				cells[i] = strconv.FormatFloat(sumF, 'g', -1, 64)
 			default:
 				f, _ := sumR.Float64()
-				cells[i] = canon(clsF64, strconv.FormatFloat(f, 'g', -1, 64))
+				cells[i] = strconv.FormatFloat(f, 'g', -1, 64)
 			}
 		}
 	}
-	return cells2row(cells)
+	return mkRow(cls, cells)
 }
 
-func cells2row(cells []string) []string { return []string{strings.Join(cells, "\x1f")} }
-
 // eval is voice 5. ok=false when the harness does not decide the query.
-func (q *query) eval() (out []string, ok bool) {
+func (q *query) eval() (out []crow, ok bool) {
 	if !q.decidable() {
 		return nil, false
 	}
@@ -449,13 +506,13 @@ func (q *query) eval() (out []string, ok bool) {
 		col := q.schema.Tables[q.Tables[g.A]].Cols[g.C]
 		groups := map[string][][][]value{}
 		for _, rows := range js {
-			k := canon(colClass(col), valueText(col, cell(rows, g.A, g.C)))
+			k := mkRow([]int{colClass(col)}, []string{valueText(col, cell(rows, g.A, g.C))}).String()
 			groups[k] = append(groups[k], rows)
 		}
 		for _, grp := range groups {
-			out = append(out, q.aggregate(grp)...)
+			out = append(out, q.aggregate(grp))
 		}
-		sort.Strings(out)
+		sortRows(out)
 		return out, true
 	case hasAgg:
 		if len(js) == 0 {
@@ -468,9 +525,9 @@ func (q *query) eval() (out []string, ok bool) {
 					cells[i] = sqlrig.Null
 				}
 			}
-			return cells2row(cells), true
+			return []crow{mkRow(q.classes(), cells)}, true
 		}
-		return q.aggregate(js), true
+		return []crow{q.aggregate(js)}, true
 	}
 	if q.Ordered {
 		sort.SliceStable(js, func(i, j int) bool {
@@ -513,12 +570,12 @@ func (q *query) eval() (out []string, ok bool) {
 		cells := make([]string, len(q.Select))
 		for i, s := range q.Select {
 			col := q.schema.Tables[q.Tables[s.A]].Cols[s.C]
-			cells[i] = canon(cls[i], valueText(col, cell(rows, s.A, s.C)))
+			cells[i] = valueText(col, cell(rows, s.A, s.C))
 		}
-		out = append(out, strings.Join(cells, "\x1f"))
+		out = append(out, mkRow(cls, cells))
 	}
 	if !q.Ordered {
-		sort.Strings(out)
+		sortRows(out)
 	}
 	return out, true
 }
